@@ -170,6 +170,19 @@ def case_unique(ctx, p):
             fam = orc.families.get(orc.member_key.get(h))
             if fam is None:
                 continue
+            # the bound is the function's own number for this row.  Other lattice points of the same length (members of the
+            # family, other families) may come out an ulp away from it in the subject's own sintl; inclusive / exclusive is
+            # judged only when that arithmetic gives one and the same number for all of them (otherwise the bound lies within
+            # 1e-9 of a lattice value that is not it: outside the quantifier)
+            tied = orc.H[np.abs(orc.s - s_i) <= 1e-9 * s_i]
+            try:
+                own = set(float(mod.sintl(c["held"], np.array(t))) for t in tied)
+            except Exception:
+                own = set()
+            if own != {s_i}:
+                mon.config("boundary call not judged: the subject's sintl differs among lattice points of this length")
+                continue
+            mon.config("boundary call judged")
             tr.reset()
             tr.on = True
             try:
